@@ -177,7 +177,15 @@ static void do_print(const char *ev, printer pr, char *p, int with_scan) {
       out_one_size(pr, o, flags, sep, s, first); first = 0;
     }
     out("]");
-    if (with_scan) { out(",\"scan\":"); out_scan(big, strnlen(big, cap)); }
+    if (with_scan) {
+      hwloc_obj_type_t ty = (hwloc_obj_type_t)99; union hwloc_obj_attr_u at;
+      out(",\"scan\":"); out_scan(big, strnlen(big, cap));
+      /* neighbouring API: the level designated by the parsed type and attributes, and by the type alone */
+      memset(&at, 0xEE, sizeof at);
+      if (hwloc_type_sscanf(big, &ty, &at, sizeof at) == 0 && (unsigned)ty < HWLOC_OBJ_TYPE_MAX)
+        out(",\"dwa\":%d", hwloc_get_type_depth_with_attr(topo, ty, &at, sizeof at));
+      out(",\"dt\":%d", hwloc_get_type_depth(topo, o->type));
+    }
     out("}"); out_end();
     free(big);
   }
